@@ -531,9 +531,24 @@ func symbolicFieldOffsets(fn *ssa.Function, recv ssa.Value, field string) map[ss
 						}
 					}
 				case *ssa.Call:
-					// a call may change the field through the receiver
+					// a call may change the field through the receiver - when it is handed the receiver
 					if !isBuiltinCall(x, "len") {
-						cur = st{false, 0}
+						gets := x.Call.IsInvoke() && strip(x.Call.Value) == recv
+						for _, a := range x.Call.Args {
+							if strip(a) == recv {
+								gets = true
+							}
+						}
+						if mc, ok := x.Call.Value.(*ssa.MakeClosure); ok {
+							for _, b := range mc.Bindings {
+								if strip(b) == recv {
+									gets = true
+								}
+							}
+						}
+						if gets {
+							cur = st{false, 0}
+						}
 					}
 				}
 			}
